@@ -115,7 +115,7 @@ fn check_probe(rep: &mut Report, fam: &str, s: &str, o: Opts, want_ok: Option<bo
 		Ok(r) => {
 			rep.max("stack_spread_bytes", r.spread as u64);
 			rep.count("characters_pulled", r.pulled as u64);
-			if r.spread > SPREAD_LIMIT {
+			if r.spread > SPREAD_LIMIT && !cfg!(miri) && std::env::var_os("JSV_SANITIZER").is_none() {
 				rep.violation(
 					"C03:stack-spread",
 					format!("[{}] stack addresses seen by the character source spread over {} bytes (limit {}) on a {}-byte input", fam, r.spread, SPREAD_LIMIT, s.len()),
@@ -516,7 +516,11 @@ pub fn run(cfg: &Config) -> i32 {
 		total.merge(rep);
 	}
 
-	deep_jobs(cfg, &mut total, thorough);
+	if !cfg.san {
+		deep_jobs(cfg, &mut total, thorough);
+	} else {
+		total.note("sanitizer pass: deep-nesting children skipped (instrumented frames are larger; stack depth is decided by the native pass)");
+	}
 
 	conclude(
 		cfg,
